@@ -688,6 +688,13 @@ let () =
              | "RESULT" :: ("panic" | "err") :: rest -> Printf.printf "PROP %s C09 fail %s\n" c.id (String.concat " " rest)
              | _ -> ()) c.lines
          with e -> Printf.printf "DIFF %s step=0 driver-exception %s\n" c.id (Printexc.to_string e))) (read_cases path)
+  | [_; "vocab"] ->
+      (* per protocol: the opcode bytes of the model's row (= the regenerated row, by SrcEquiv), with the protocol that introduced each *)
+      List.iter (fun vi ->
+        let v = version_of_int vi in
+        Printf.printf "VOCAB v=%d %s\n" vi
+          (String.concat "," (List.map (fun o -> Printf.sprintf "%02x:%s:%d" (int_of_n (ref_code o)) (cp_name o) (int_of_n (ref_proto o)))
+             (List.filter (fun o -> int_of_n (ref_proto o) <= vi) all_opcodes)))) [0; 1; 2; 3; 4; 5]
   | [_; "paths"; path] ->
       let ic = open_in path in
       let i = ref 0 in
